@@ -342,14 +342,23 @@ where
                 Err(e.into())
             }
         })?;
-        self.try_update_active_blob(blob).await?;
-        if self.inner.should_try_fsync(result.dirty_bytes) {
+        let need_update = self.should_update_active_blob(blob).await?;
+        let need_fsync = self.inner.should_try_fsync(result.dirty_bytes);
+        // Requests to the background worker go through a bounded channel. Sending must not wait while the storage
+        // lock is held: the worker needs this lock exclusively to switch the active blob, so a full channel would
+        // block writers and worker forever
+        drop(safe);
+        if need_update {
+            self.observer.try_update_active_blob().await;
+        }
+        if need_fsync {
             self.observer.try_fsync_data().await;
         }
         Ok(())
     }
 
-    async fn try_update_active_blob(&self, active_blob: &Box<ASRwLock<Blob<K>>>) -> Result<()> {
+    /// Checks if active blob should be switched (limits are exceeded and debounce interval has passed)
+    async fn should_update_active_blob(&self, active_blob: &Box<ASRwLock<Blob<K>>>) -> Result<bool> {
         let config_max_size = self
             .inner
             .config
@@ -371,10 +380,10 @@ where
                 Err(d) => d,
             };
             if dur.as_millis() > self.inner.config.debounce_interval_ms() as u128 {
-                self.observer.try_update_active_blob().await;
+                return Ok(true);
             }
         }
-        Ok(())
+        Ok(false)
     }
 
     /// Reads the first found data matching given key.
@@ -1044,39 +1053,50 @@ where
     }
 
     async fn delete_with_optional_meta(&self, key: impl AsRef<K>, timestamp: BlobRecordTimestamp, meta: Option<Meta>, only_if_presented: bool) -> Result<u64> {
-        {
+        let outcome = {
             // Try read lock first
             let safe = self.inner.safe.read().await;
             if only_if_presented || safe.active_blob.is_some() {
-                return self.delete_core(&safe, key.as_ref(), timestamp, meta, only_if_presented).await;
+                Some(self.delete_core(&safe, key.as_ref(), timestamp, meta.clone(), only_if_presented).await?)
+            } else {
+                None
             }
+        };
+        let (deleted, need_defer_dump, need_fsync) = match outcome {
+            Some(outcome) => outcome,
+            None => {
+                // Active blob should be initialized => use write lock
+                let mut safe = self.inner.safe.write().await;
+                if !only_if_presented {
+                    self.inner.ensure_active_blob_exists(&mut safe).await?;
+                }
+                self.delete_core(&mut safe, key.as_ref(), timestamp, meta, only_if_presented).await?
+            }
+        };
+        // The storage lock is released here: sending to the bounded channel of the worker must not wait under it
+        if need_defer_dump {
+            self.observer.defer_dump_old_blob_indexes().await;
         }
-
-        // Active blob should be initialized => use write lock
-        let mut safe = self.inner.safe.write().await;
-        if !only_if_presented {
-            self.inner.ensure_active_blob_exists(&mut safe).await?;
+        if need_fsync {
+            self.observer.try_fsync_data().await;
         }
-        return self.delete_core(&mut safe, key.as_ref(), timestamp, meta, only_if_presented).await;
+        Ok(deleted)
     }
 
-    /// Core deletion logic, when lock on `Safe<K>` is acquired
-    async fn delete_core(&self, safe: &Safe<K>, key: &K, timestamp: BlobRecordTimestamp, meta: Option<Meta>, only_if_presented: bool) -> Result<u64> {
+    /// Core deletion logic, when lock on `Safe<K>` is acquired.
+    /// Returns deleted count and the requests, that should be sent to the worker after the lock is released:
+    /// (deferred index dump, fsync)
+    async fn delete_core(&self, safe: &Safe<K>, key: &K, timestamp: BlobRecordTimestamp, meta: Option<Meta>, only_if_presented: bool) -> Result<(u64, bool, bool)> {
         let deleted_in_active_result = Self::delete_in_active(safe, key, timestamp, meta.clone(), only_if_presented).await?;
         let deleted_in_active = deleted_in_active_result.as_ref().map(|r| if r.deleted { 1 } else { 0 }).unwrap_or(0);
         let deleted_in_closed = Self::delete_in_closed(safe, key, timestamp, meta).await?;
 
-        if deleted_in_closed > 0 {
-            self.observer.defer_dump_old_blob_indexes().await;
-        }
-        if let Some(result) = deleted_in_active_result {
-            if self.inner.should_try_fsync(result.dirty_bytes) {
-                self.observer.try_fsync_data().await;
-            }
-        }
+        let need_defer_dump = deleted_in_closed > 0;
+        let need_fsync = deleted_in_active_result
+            .map_or(false, |result| self.inner.should_try_fsync(result.dirty_bytes));
 
         debug!("{} deleted total", deleted_in_active + deleted_in_closed);
-        Ok(deleted_in_active + deleted_in_closed)
+        Ok((deleted_in_active + deleted_in_closed, need_defer_dump, need_fsync))
     }
 
     async fn delete_in_closed(safe: &Safe<K>, key: &K, timestamp: BlobRecordTimestamp, meta: Option<Meta>) -> Result<u64> {
